@@ -35,26 +35,56 @@ fn lookup(x: f64) -> Option<usize> {
 #[derive(Clone)]
 pub struct Probe<T: Est> {
     pub inner: T,
-    /// half-open index range absorbed so far (lo == hi == usize::MAX when empty)
-    lo: usize,
-    hi: usize,
+    /// disjoint, sorted, maximal half-open index ranges absorbed so far
+    ranges: Vec<(usize, usize)>,
     count: usize,
-    /// recorded tree: `E` empty identity, `L<lo>-<hi>` fold leaf, `(a b)` merge a <- b
+    /// recorded tree: `E` empty identity, `L<lo>-<hi>` fold leaf that absorbed the ascending
+    /// contiguous run lo..hi, `X<count>` a leaf that absorbed items in any other order,
+    /// `(a b)` = a.merge(&b)
     tree: String,
     leaf: bool,
+    ordered: bool,
+    last: usize,
     bad: Vec<String>,
+    /// merges whose operands were not adjacent index runs in order (allowed; reported)
+    nonadjacent: usize,
+}
+
+fn insert_range(ranges: &mut Vec<(usize, usize)>, lo: usize, hi: usize) -> bool {
+    // returns false on overlap (an item absorbed twice)
+    for &(a, b) in ranges.iter() {
+        if lo < b && a < hi {
+            return false;
+        }
+    }
+    ranges.push((lo, hi));
+    ranges.sort();
+    let mut out: Vec<(usize, usize)> = Vec::with_capacity(ranges.len());
+    for &(a, b) in ranges.iter() {
+        if let Some(last) = out.last_mut() {
+            if last.1 == a {
+                last.1 = b;
+                continue;
+            }
+        }
+        out.push((a, b));
+    }
+    *ranges = out;
+    true
 }
 
 impl<T: Est> Probe<T> {
     pub fn new() -> Self {
         Probe {
             inner: T::mk_new(&Params { p: 0.5 }),
-            lo: usize::MAX,
-            hi: usize::MAX,
+            ranges: vec![],
             count: 0,
             tree: String::new(),
             leaf: true,
+            ordered: true,
+            last: 0,
             bad: vec![],
+            nonadjacent: 0,
         }
     }
 
@@ -62,8 +92,10 @@ impl<T: Est> Probe<T> {
         if self.leaf {
             if self.count == 0 {
                 "E".to_string()
+            } else if self.ordered && self.ranges.len() == 1 {
+                format!("L{}-{}", self.ranges[0].0, self.ranges[0].1)
             } else {
-                format!("L{}-{}", self.lo, self.hi)
+                format!("X{}", self.count)
             }
         } else {
             self.tree.clone()
@@ -77,15 +109,12 @@ impl<T: Est> Probe<T> {
         match lookup(x) {
             None => self.bad.push(format!("unknown-item:{:016x}", x.to_bits())),
             Some(i) => {
-                if self.count == 0 {
-                    self.lo = i;
-                    self.hi = i + 1;
-                } else if i == self.hi {
-                    self.hi = i + 1;
-                } else {
-                    self.bad.push(format!("noncontiguous-add:{}-{}+{}", self.lo, self.hi, i));
-                    self.lo = self.lo.min(i);
-                    self.hi = self.hi.max(i + 1);
+                if self.count > 0 && i != self.last + 1 {
+                    self.ordered = false;
+                }
+                self.last = i;
+                if !insert_range(&mut self.ranges, i, i + 1) {
+                    self.bad.push(format!("duplicate-item:{}", i));
                 }
             }
         }
@@ -97,22 +126,21 @@ impl<T: Est> Probe<T> {
 impl<T: Est> Merge for Probe<T> {
     fn merge(&mut self, other: &Self) {
         let t = format!("({} {})", self.tree_string(), other.tree_string());
-        if self.count > 0 && other.count > 0 && self.hi != other.lo {
-            self.bad.push(format!(
-                "nonadjacent-merge:{}-{}<-{}-{}",
-                self.lo, self.hi, other.lo, other.hi
-            ));
+        if self.count > 0 && other.count > 0 {
+            let adjacent = self.ranges.len() == 1
+                && other.ranges.len() == 1
+                && self.ranges[0].1 == other.ranges[0].0;
+            if !adjacent {
+                self.nonadjacent += 1;
+            }
         }
-        if other.count > 0 {
-            if self.count == 0 {
-                self.lo = other.lo;
-                self.hi = other.hi;
-            } else {
-                self.lo = self.lo.min(other.lo);
-                self.hi = self.hi.max(other.hi);
+        for &(a, b) in other.ranges.iter() {
+            if !insert_range(&mut self.ranges, a, b) {
+                self.bad.push(format!("duplicate-item:{}-{}", a, b));
             }
         }
         self.count += other.count;
+        self.nonadjacent += other.nonadjacent;
         self.bad.extend(other.bad.iter().cloned());
         self.tree = t;
         self.leaf = false;
@@ -148,10 +176,18 @@ macro_rules! probe_type {
             fn obs(&self, o: &mut Obs) {
                 self.inner.obs(o);
                 o.raw("probe_count", &format!("u{}", self.count));
-                if self.count > 0 {
-                    o.raw("probe_lo", &format!("u{}", self.lo));
-                    o.raw("probe_hi", &format!("u{}", self.hi));
-                }
+                o.raw(
+                    "probe_ranges",
+                    &format!(
+                        "s{}",
+                        if self.ranges.is_empty() {
+                            "-".to_string()
+                        } else {
+                            self.ranges.iter().map(|(a, b)| format!("{}-{}", a, b)).collect::<Vec<_>>().join(",")
+                        }
+                    ),
+                );
+                o.raw("probe_nonadjacent", &format!("u{}", self.nonadjacent));
                 o.raw("probe_bad", &format!("s{}", if self.bad.is_empty() { "-".to_string() } else { self.bad.join("|") }));
                 o.raw("probe_tree", &format!("s{}", self.tree_string().replace(' ', "_")));
             }
